@@ -22,6 +22,7 @@ import os
 import sys
 
 from ..common import hexs, unhexs
+from .. import common
 from .. import itpgen as G
 
 RULE = ("generated topologies, n in 1..3000 atoms over 11 graph classes (chain, shuffled chain, tree, deep tree, star, "
@@ -155,7 +156,12 @@ def evaluate(ctx, case):
         cls = case.get("cls", kind)
     text = G.decode(data)
     _counter[0] += 1
-    f = os.path.join(ctx.scratch, f"c15_{_counter[0]}.itp")
+    # the same few path strings are written again and again with different contents: "loading a topology
+    # gives exactly the FILE's atoms" must hold for the file as it is now, not as it was when the path
+    # was first seen (seed C15-2: a per-path memo in read_topology)
+    f = os.path.join(ctx.scratch, f"c15_{_counter[0] % 3}.itp")
+    ctx.count("path:" + ("reused" if _counter[0] > 3 else "first-use"))
+    common.decoy(f, "itp")
     with open(f, "wb") as fh:
         fh.write(data)
 
@@ -223,8 +229,10 @@ def evaluate(ctx, case):
                 want_sets[b].add(a)
             got_sets = [set(a.bonds) for a in mol.atoms]
             if got_sets != want_sets:
-                i = next(i for i in range(n) if got_sets[i] != want_sets[i])
-                fail("bonds" + rep, {"atom": i, "got": sorted(got_sets[i]), "want": sorted(want_sets[i])})
+                i = next((i for i in range(min(n, len(got_sets))) if got_sets[i] != want_sets[i]), min(n, len(got_sets)) - 1)
+                fail("bonds" + rep, {"atom": i, "n_got": len(got_sets), "n_want": n,
+                                     "got": sorted(got_sets[i]) if 0 <= i < len(got_sets) else None,
+                                     "want": sorted(want_sets[i]) if 0 <= i < n else None})
             if _canon_pairs(bonds) != _canon_pairs(spairs):
                 fail("pair-list" + rep, {"got": len(bonds), "want": len(spairs)})
             if conn != ("ok", ncomp == 1):
@@ -241,13 +249,13 @@ def evaluate(ctx, case):
                 bad.append("shares-atoms")
             if any(a.bonds is b.bonds for a, b in zip(cp.atoms, mol.atoms)):
                 bad.append("shares-bond-sets")
-            ops = _gen_ops(rng, n)
+            ops = _gen_ops(rng, len(mol.atoms))
             _apply_ops(cp, ops)
             after_c = snapshot(cp)
             after_o = snapshot(mol)
             if after_o != before_o:
                 bad.append("original-changed-by-copy-mutation")
-            ops2 = _gen_ops(rng, n)
+            ops2 = _gen_ops(rng, len(mol.atoms))
             _apply_ops(mol, ops2)
             if snapshot(cp) != after_c:
                 bad.append("copy-changed-by-original-mutation")
